@@ -38,6 +38,10 @@ pub struct XferCfg {
 }
 
 impl XferCfg {
+    /// Is the end of stream `tag` on `side` driven through `into_copy_bidirectional` (the application talks to a local pipe)?
+    pub fn is_bridged(&self, tag: u8, side: usize, opener: usize) -> bool {
+        self.streams.iter().any(|s| s.tag == tag && matches!(if side == opener { &s.opener_plan } else { &s.acceptor_plan }, EndPlan::Bridged(..)))
+    }
     pub fn describe(&self) -> String {
         let ss: Vec<String> = self
             .streams
@@ -185,6 +189,17 @@ impl StepChecker {
                     let tag = fl.host.first().copied().unwrap_or(0xff);
                     let Some(led) = obs.dirs.get(&(tag, wdir)) else { continue };
                     let Some(win) = fl.window[peer] else { continue };
+                    if cfg.is_bridged(tag, side, opener) {
+                        // the writer is the bridge, not the application: its frames are not application writes. What can be
+                        // stated from outside: frames on the wire + credit still held never exceed window + credit returned
+                        let have = i64::from(f.credit) + fl.pushes_sent[side] as i64;
+                        let allowed = i64::from(win) + fl.acks_consumed[peer] as i64;
+                        if have > allowed {
+                            let desc = format!("side {side} flow {:#x} (bridged end): {} Push frames on the wire + send credit {} exceed the window advertised by the peer ({win}) + credit returned and processed ({})", f.id, fl.pushes_sent[side], f.credit, fl.acks_consumed[peer]);
+                            push_viol(&mut self.violations, "credit.equation", desc);
+                        }
+                        continue;
+                    }
                     // credit_X == window_Y - successful writes_X + credit of Acknowledge frames X's task has taken in
                     let expect = i64::from(win) - i64::from(led.writes_ok) + fl.acks_consumed[peer] as i64;
                     // a write may be in progress only between steps; at a step boundary the equation is exact
@@ -242,6 +257,9 @@ impl StepChecker {
                 for side in 0..2 {
                     let wdir: u8 = u8::from(opener != side);
                     let ok = obs.dirs.get(&(tag, wdir)).map_or(0, |d| u64::from(d.writes_ok));
+                    if cfg.is_bridged(tag, side, opener) {
+                        continue;
+                    }
                     if fl.pushes_sent[side] > ok {
                         let desc = format!("flow {id:#x}: side {side} put {} Push frames on the wire for {ok} successful writes", fl.pushes_sent[side]);
                         push_viol(&mut self.violations, "push.without-write", desc);
